@@ -869,14 +869,14 @@ func srvGoneClient(o *common.Out, id string, pool, wt bool, style string) {
 	}
 	select {
 	case <-rig.h.entered:
-	case <-time.After(3 * time.Second):
+	case <-time.After(12 * time.Second):
 		o.Fail(id, "no-handler", "the request never reached its handler", abstract)
 		return
 	}
 	peer.close()
 	select {
 	case <-cn.closed:
-	case <-time.After(3 * time.Second):
+	case <-time.After(12 * time.Second):
 		o.Fail(id, "rig", "the server did not close the connection its peer had left", abstract)
 		return
 	}
@@ -931,7 +931,7 @@ func srvRefusedThenAuthOn(o *common.Out, id string, ow, between bool, opt string
 		return b
 	}
 	want := func(seq uint64, what string) *refcodec.Frame {
-		f := peer.next(3 * time.Second)
+		f := peer.next(12 * time.Second)
 		if f == nil || binary.BigEndian.Uint64(f.Header[4:]) != seq {
 			o.Fail(id, "no-response", what+": not answered", abstract)
 			return nil
@@ -965,7 +965,7 @@ func srvRefusedThenAuthOn(o *common.Out, id string, ow, between bool, opt string
 		case f = <-peer.frames:
 		default:
 		}
-	case <-time.After(3 * time.Second):
+	case <-time.After(12 * time.Second):
 	}
 	if f != nil {
 		if binary.BigEndian.Uint64(f.Header[4:]) != 53 || f.Header[2]&0x03 != 1 {
@@ -982,7 +982,7 @@ func srvRefusedThenAuthOn(o *common.Out, id string, ow, between bool, opt string
 	}
 	select {
 	case <-peer.closed:
-	case <-time.After(3 * time.Second):
+	case <-time.After(12 * time.Second):
 		o.Fail(id, "auth-failure-not-closed", "the connection stayed open after a request on it failed authentication (an earlier request on it had been turned away by the rate limiter)", abstract)
 	}
 	if n := invoked() - before; n != 0 {
